@@ -174,4 +174,115 @@ class FormatGroupbyInput(Contract):
         return thunk
 
 
-CONTRACTS = [GroupbyCall, FormatGroupbyInput]
+class PreprocessGroupedKeyColumn(Contract):
+    """preprocess_table_with_key with a `groupby`: the check function receives {group key: the key column of that group} - and with
+    ignore_na=True "null elements ... are never shown to the function" in this option combination as in any other: each group's series
+    comes without its nulls (a group whose values are all null is still a group, with no element).
+        post.one_entry_per_group                    the keys _format_groupby_input hands over (its own contract), none lost
+        post.group_rows                             ignore_na: the group's rows whose key-column value is not null; otherwise the group
+        post.no_null_shown_when_ignore_na
+    for all frames, <= 2 groups (arbitrary row sets), ignore_na symbolic."""
+
+    target = f"{CB}.preprocess_table_with_key"
+    check_frame = False
+
+    def setup(self, I):
+        import z3
+        from pyvc.theories import pandas_lite as PL
+        import pandera.backends.pandas.checks as C
+
+        PL.install(I)
+
+        class _GB:
+            __pyvc_symbolic__ = True
+
+            def __init__(self, of, key=None):
+                self.of, self.key = of, key
+
+            def pyvc_getitem(self, I_, k):
+                return _GB(self.of, k)
+
+        def groupby(I_, self_obj, check_obj):
+            g = _GB(check_obj)
+            cur().ghost["groupby_called_on"] = check_obj
+            return g
+
+        def fmt(I_, groupby_obj, groups):
+            # (FormatGroupbyInput) the groups, keyed: here two groups "x" / "y", arbitrary row sets of the grouped object's key column
+            p = cur()
+            p.ghost["format_got"] = (groupby_obj, groups)
+            frame, key = groupby_obj.of, groupby_obj.key
+            col = frame.col_fn(key)
+            out = DictObj()
+            members = {}
+            for name in ("x", "y"):
+                f = z3.Function(p.fresh_name(f"in_group_{name}"), z3.IntSort(), z3.BoolSort())
+                members[name] = f
+                dict.__setitem__(out, name, col.derive(sel=(lambda f: lambda i: z3.And(frame._sel(i), f(i)))(f)))
+            p.ghost["members"] = members
+            return out
+
+        I.models[id(C.PandasCheckBackend.groupby)] = groupby
+        I.models[id(C.PandasCheckBackend._format_groupby_input)] = fmt
+
+    def make_args(self):
+        from contracts.C19_check_options import backend
+        from pyvc.theories.pandas_lite import FrameVal
+
+        return {"self": backend(groupby=T.Const("g"), groups=T.Const(None)).fresh("self"), "check_obj": FrameVal.fresh("check_obj"), "key": T.fresh_value(T.Label, "key")}
+
+    def requires(self, self_, check_obj, key):
+        return check_obj.has_col(key)
+
+    def call_target(self, I, fn, a):
+        return I.call(fn, [a["self"], a["check_obj"], a["key"]], {})
+
+    def ensures(self, result, old, self_, check_obj, key):
+        import z3
+        from contracts.util import fld0
+        from pyvc.core import SBool, py_eq
+        from pyvc.theories.pandas_lite import SeriesVal
+
+        g = cur().ghost
+        ign = core.as_z3_bool(fld0(fld0(self_, "check"), "ignore_na"))
+        col = check_obj.col_fn(key)
+        items = list(dict.items(result)) if isinstance(result, dict) else None
+        out = {"one_entry_per_group": items is not None and [k for k, _ in items] == ["x", "y"] and all(isinstance(v, SeriesVal) and v.space is check_obj.space for _, v in items),
+               "grouped_the_object_itself": g.get("groupby_called_on") is check_obj}
+        if not out["one_entry_per_group"]:
+            return out
+        i = z3.Int(cur().fresh_name("row"))
+        core.register_model_var("row", i)
+        for k, v in items:
+            member = z3.And(check_obj.sel(i), g["members"][k](i))
+            out[f"group_rows[{k}]"] = SBool(v.sel(i) == z3.If(ign, z3.And(member, z3.Not(col.null(i))), member))
+            out[f"values_are_the_key_columns[{k}]"] = SBool(z3.Implies(v.sel(i), core.as_z3_bool(py_eq(v.at(i), col.at(i)))))
+            out[f"no_null_shown_when_ignore_na[{k}]"] = SBool(z3.Implies(z3.And(ign, v.sel(i)), z3.Not(v.null(i))))
+        return out
+
+    def concretize(self, rec):
+        def thunk():
+            """Check(fn, groupby='g') under the default ignore_na=True: fn must not be shown the NaN"""
+            import math
+            import warnings
+
+            import numpy as np
+            import pandas as pd
+            import pandera as pa
+
+            warnings.simplefilter("ignore")
+            seen = {}
+
+            def fn(groups):
+                seen.update({k: list(v) for k, v in groups.items()})
+                return True
+
+            df = pd.DataFrame({"a": [1.0, np.nan, 3.0, np.nan], "g": ["x", "x", "y", "z"]})
+            pa.DataFrameSchema({"a": pa.Column(float, pa.Check(fn, groupby="g"), nullable=True), "g": pa.Column(str)}).validate(df)
+            shown_null = {k: v for k, v in seen.items() if any(isinstance(x, float) and math.isnan(x) for x in v)}
+            return bool(shown_null) or set(seen) != {"x", "y", "z"}, {"the check function received": {k: [repr(x) for x in v] for k, v in seen.items()}}
+
+        return thunk
+
+
+CONTRACTS = [GroupbyCall, FormatGroupbyInput, PreprocessGroupedKeyColumn]
